@@ -869,7 +869,14 @@ def divmod_vids(st, x, c):
                 for o in (q1, qq):
                     USERS.setdefault(o, []).append(q)
                 break
-        if q is None and x in AFF:
+        # x = c*H + L with 0 <= L < c gives x / c = H only when the division rounds toward minus infinity or x >= 0:
+        # for the truncating `/` and `%` of MIR the decomposition is used only for dividends that are non-negative in every state
+        _before = set(GRANGE)
+        gx = grange_of(x)
+        for _k in set(GRANGE) - _before:      # (no memoisation side effect: the global ranges recorded so far stay as they were)
+            del GRANGE[_k]
+        trunc_ok = gx is not None and gx[0] >= 0
+        if q is None and x in AFF and trunc_ok:
             sc = _split_scaled(st, aff_of(x), c)
             if sc is not None:
                 q = new_vid(); r = new_vid()
@@ -880,7 +887,7 @@ def divmod_vids(st, x, c):
                     for o in a_.co:
                         USERS.setdefault(o, []).append(tgt)
         if q is None:
-            hl = _split_high_low(aff_of(x), c) if x in AFF else None
+            hl = _split_high_low(aff_of(x), c) if (x in AFF and trunc_ok) else None
             q = new_vid()
             r = new_vid()
             TERM[q] = ('Div', x, cv)
